@@ -108,6 +108,15 @@ Theorem C20_repo_rejects_other_paths_prefix_refuted :
 Proof. exact repo_parse_prefix_retargets. Qed.
 Print Assumptions C20_repo_rejects_other_paths_prefix_refuted.
 
+(* Repository.ParseReference accepts EXACTLY (inductive RepoRefGrammar, Proofs/Reference.v): a
+   tag; a digest; <dropped>@digest with the dropped part free of '/' and '@'; or a fully qualified
+   reference of the base repository with a non-empty reference -- for every base, valid or not *)
+Theorem C20_repo_parse_iff_grammar :
+  forall (avail valid_registry : str -> bool) breg brepo s r,
+    repo_parse avail valid_registry breg brepo s = Some r <-> RepoRefGrammar avail valid_registry breg brepo s r.
+Proof. exact repo_parse_iff_grammar. Qed.
+Print Assumptions C20_repo_parse_iff_grammar.
+
 Theorem C20_repo_result_in_base :
   forall (avail valid_registry : str -> bool) breg brepo s r,
     repo_parse avail valid_registry breg brepo s = Some r ->
@@ -516,3 +525,12 @@ Print Assumptions C20_reg_op_requests_exact.
 Example C20_go_digest_pinned :
   go_digest_pin = (b "v1.0.0", b "h1:apOUWs51W5PlhuyGyz9FCeeBIOUDA/6nW8Oi/yOhh5U=").
 Proof. vm_compute. reflexivity. Qed.
+
+(* the characters at which ParseReference / Repository.ParseReference / ValidateReference split are
+   the ones of the model: the one-character string literals of those functions, read off the Go
+   source on every run *)
+Example C20_separators_pinned :
+  filter (fun l => Nat.eqb (length l) 1) ParseReference_lits = [[c_slash]; [c_at]; [c_colon]; [c_colon]] /\
+  filter (fun l => Nat.eqb (length l) 1) String_lits = [[c_slash]; [c_at]; [c_colon]] /\
+  filter (fun l => Nat.eqb (length l) 1) setQueryParams_lits = [[38]; [61]; [61]; [38]].
+Proof. vm_compute. repeat split. Qed.
